@@ -18,6 +18,9 @@ Definition knamespace : chars := chars_of "namespace".
 Definition decl_keywords : list chars := knamespace :: other_keywords.
 
 Ltac noblank := vm_compute; intuition discriminate.
+Definition lbrace : chars := ["{"%char].
+Definition rbrace : chars := ["}"%char].
+
 (* unfold a rule reference to its body in the grammar *)
 Ltac rule name :=
   let b := eval cbv -[alpha_ alnum_ digits] in (lookup g name) in
@@ -348,6 +351,48 @@ Proof.
   rewrite E3, ?seq_nil. exists p3. unfold fwd_value. rewrite !app_nil_r, <- app_assoc. reflexivity.
 Qed.
 
+Lemma fwd_fails_class : forall (virt : bool) f p n R, is_ident n = true ->
+  interp g (13 + f) (GRef "ForwardDeclaration")
+         {| pk := p; rest := render (virt_toks virt) (sp kclass (sp n (sp lbrace R))) |} = Fail.
+Proof.
+  intros virt f p n R Hn. cbn [Nat.add]. rule "ForwardDeclaration"%string.
+  rewrite i_and, seq_cons, i_and, seq_cons, i_and, seq_cons, i_and.
+  set (TAIL := sp n (sp lbrace R)).
+  assert (Bd : boundary TAIL) by (right; eexists; reflexivity).
+  assert (Bc : boundary (sp kclass TAIL)) by (right; eexists; reflexivity).
+  assert (Step : forall q, exists q',
+     seq (interp g (S (S (S (S (S (S (S (S f))))))))) [GTerm (TKw "class")] (virt_items virt)
+         {| pk := q; rest := sp kclass TAIL |}
+     = Match ((virt_items virt) ++ [([], VStr "class")]) {| pk := q'; rest := TAIL |}).
+  { intros q. rewrite seq_cons, i_term.
+    destruct (kw_self q "c"%char (chars_of "lass") TAIL eq_refl Bd) as [q1 E1].
+    change (string_of ("c"%char :: chars_of "lass")) with "class"%string in E1.
+    change (sp ("c"%char :: chars_of "lass") TAIL) with (sp kclass TAIL) in E1. rewrite E1, seq_nil. exists q1. reflexivity. }
+  assert (Head : exists q', seq (interp g (S (S (S (S (S (S (S (S f)))))))))
+                                [GOpt (GName "is_virtual" (GTerm (TKw "virtual"))); GTerm (TKw "class")] []
+                                {| pk := p; rest := render (virt_toks virt) (sp kclass TAIL) |}
+                            = Match ((virt_items virt) ++ [([], VStr "class")])
+                                    {| pk := q'; rest := TAIL |}).
+  { rewrite seq_cons, i_opt, i_name. destruct virt; cbn [app render fold_right virt_items virt_toks]; fold TAIL.
+    - rewrite i_term. destruct (kw_self p "v"%char (chars_of "irtual") (sp kclass TAIL) eq_refl Bc) as [q1 E1].
+      change (string_of ("v"%char :: chars_of "irtual")) with "virtual"%string in E1.
+      change (sp ("v"%char :: chars_of "irtual") (sp kclass TAIL)) with (sp kvirtual (sp kclass TAIL)) in E1.
+       rewrite E1. cbn [map add_name fst snd app].
+      destruct (Step q1) as [q2 E2]. cbn [virt_items] in E2. exists q2. exact E2.
+    - idtac.
+      rewrite (kw_word_fail _ p "virtual" kclass TAIL ltac:(split; [discriminate | reflexivity]) Bd (safe_nospace _ _ no_blank_virtual) ltac:(discriminate)).
+      cbn [app]. destruct (Step p) as [q2 E2]. cbn [virt_items] in E2. exists q2. exact E2. }
+  destruct Head as [q1 EH].
+  rewrite EH. unfold TAIL.
+  rewrite seq_cons, i_name, (i_ref _ _ "Typename" TN_BODY lookup_Typename).
+  assert (NC : no_colons (sp lbrace R)) by (right; exists "{"%char, R; split; [reflexivity|]; split; reflexivity).
+  destruct (tn_body_ok (1 + f) q1 n [] (sp lbrace R) NC Hn (Forall_nil _) ltac:(cbn; lia)) as [p2 E2].
+  cbn [Nat.add path_toks render fold_right] in E2. rewrite E2. cbn [map add_name fst snd app]. rewrite seq_nil.
+  rewrite seq_cons, i_opt, i_and, seq_cons, i_sup.
+  rewrite (lit1_other _ p2 ":"%char "{"%char [] R eq_refl eq_refl). rewrite ?seq_nil. rewrite ?seq_cons, i_sup.
+  rewrite (lit1_other _ p2 ";"%char "{"%char [] R eq_refl eq_refl). reflexivity.
+Qed.
+
 (* the other alternatives on the text of a forward declaration *)
 Lemma include_fails2 : forall p h r f, word h -> boundary r -> interp g (6 + f) (GRef "Include") {| pk := p; rest := sp h r |} = Fail.
 Proof.
@@ -509,8 +554,6 @@ Proof.
     unfold OR1. apply or2_l; [exact E | apply (include_fails2 p kclass _ (15 + z) Wc Bd)].
 Qed.
 
-Definition lbrace : chars := ["{"%char].
-Definition rbrace : chars := ["}"%char].
 
 (* ---- enumerations `enum Name { A , B } ;` ----
    The parse tree does not record which of `enum`, `enum class`, `enum struct` was written; the printer writes `enum`.
@@ -980,6 +1023,52 @@ Section AtBrace.
     rewrite (kwb _ "namespace" eq_refl). reflexivity.
   Qed.
 
+  (* the alternatives of Class.Members at `}` *)
+  Lemma rt_b : forall f, interp g (16 + f) (GRef "ReturnType") st = Fail.
+  Proof.
+    intros f. cbn [Nat.add]. rewrite (i_ref _ _ "ReturnType" RT_BODY lookup_ReturnType). unfold RT_BODY. rewrite i_or. cbn [alt_longest].
+    unfold PAIR_AND. rewrite i_and, seq_cons, i_and, seq_cons, i_and, seq_cons, i_and, seq_cons, i_and, seq_cons, i_and, seq_cons, i_sup, i_opt, i_term.
+    pose proof (lit_fail p (chars_of "std::") "}"%char [] X eq_refl eq_refl) as L. change (string_of (chars_of "std::")) with "std::"%string in L.
+    change (run_term (TLit "std::") st = Fail) in L. rewrite L. clear L. rewrite seq_cons, i_sup. rewrite (kwb _ "pair" eq_refl).
+    rewrite i_name. pose proof (ty_fails_at_rbrace (1 + f) p X) as E. cbn [Nat.add] in E.
+    match type of E with interp g ?F ?e _ = Fail => change (interp g F e st = Fail) in E end. rewrite E. reflexivity.
+  Qed.
+  Lemma dunder_b : forall f, interp g (9 + f) (GRef "DunderMethod") st = Fail.
+  Proof.
+    intros f. cbn [Nat.add]. rule "DunderMethod"%string.
+    rewrite i_and, seq_cons, i_and, seq_cons, i_and, seq_cons, i_and, seq_cons, i_and, seq_cons, i_and, seq_cons, i_sup, i_term.
+    pose proof (lit_fail p (chars_of "__") "}"%char [] X eq_refl eq_refl) as L. change (string_of (chars_of "__")) with "__"%string in L.
+    change (run_term (TLit "__") st = Fail) in L. rewrite L. reflexivity.
+  Qed.
+  Lemma ctor_b : forall f, interp g (14 + f) (GRef "Constructor") st = Fail.
+  Proof.
+    intros f. cbn [Nat.add]. rule "Constructor"%string.
+    rewrite i_and, seq_cons, i_and, seq_cons, i_and, seq_cons, i_and, seq_cons, i_and, seq_cons.
+    pose proof (template_opt_b (1 + f)) as T. unfold TEMPLATE_OPT in T. cbn [Nat.add] in T. rewrite T. clear T. cbn [app]. rewrite seq_cons, i_name.
+    pose proof (IDENT_fail (5 + f) p "}"%char [] X eq_refl eq_refl eq_refl) as E. cbn [Nat.add] in E. unfold IDENT in E.
+    match type of E with interp g ?F ?e _ = Fail => change (interp g F e st = Fail) in E end. rewrite E. reflexivity.
+  Qed.
+  Lemma method_b : forall f, interp g (25 + f) (GRef "Method") st = Fail.
+  Proof.
+    intros f. cbn [Nat.add]. rule "Method"%string.
+    rewrite i_and, seq_cons, i_and, seq_cons, i_and, seq_cons, i_and, seq_cons, i_and, seq_cons, i_and, seq_cons, i_and, seq_cons.
+    pose proof (template_opt_b (10 + f)) as T. unfold TEMPLATE_OPT in T. cbn [Nat.add] in T. rewrite T. clear T. cbn [app]. rewrite seq_cons, i_name.
+    pose proof (rt_b f) as E. cbn [Nat.add] in E. rewrite E. reflexivity.
+  Qed.
+  Lemma static_b : forall f, interp g (17 + f) (GRef "StaticMethod") st = Fail.
+  Proof.
+    intros f. cbn [Nat.add]. rule "StaticMethod"%string.
+    rewrite i_and, seq_cons, i_and, seq_cons, i_and, seq_cons, i_and, seq_cons, i_and, seq_cons, i_and, seq_cons, i_and, seq_cons.
+    pose proof (template_opt_b (2 + f)) as T. unfold TEMPLATE_OPT in T. cbn [Nat.add] in T. rewrite T. clear T. cbn [app]. rewrite seq_cons.
+    rewrite (kwb _ "static" eq_refl). reflexivity.
+  Qed.
+  Lemma oper_b : forall f, interp g (25 + f) (GRef "Operator") st = Fail.
+  Proof.
+    intros f. cbn [Nat.add]. rule "Operator"%string.
+    rewrite i_and, seq_cons, i_and, seq_cons, i_and, seq_cons, i_and, seq_cons, i_and, seq_cons, i_and, seq_cons, i_and, seq_cons, i_name.
+    pose proof (rt_b f) as E. cbn [Nat.add] in E. rewrite E. reflexivity.
+  Qed.
+
   Lemma rbrace_fails : forall f, interp g (30 + f) OR7 st = Fail.
   Proof.
     intros f.
@@ -1171,6 +1260,632 @@ Proof.
   unfold OR7. change (30 + z) with (S (29 + z)). apply or2_l; [exact E6 | apply ns_b_h].
 Qed.
 
+(* ---- the members of a class: the repetition stops at the closing brace ---- *)
+Definition MOR1 : gexpr := GOr [GRef "DunderMethod"; GRef "Constructor"].
+Definition MOR2 : gexpr := GOr [MOR1; GRef "Method"].
+Definition MOR3 : gexpr := GOr [MOR2; GRef "StaticMethod"].
+Definition MOR4 : gexpr := GOr [MOR3; GRef "Variable"].
+Definition MOR5 : gexpr := GOr [MOR4; GRef "Operator"].
+Definition MOR6 : gexpr := GOr [MOR5; GRef "Enum"].
+Lemma members_rule : lookup g "Class.Members" = Some (GStar MOR6). Proof. reflexivity. Qed.
+
+Lemma members_stop : forall p X f, interp g (40 + f) MOR6 {| pk := p; rest := sp rbrace X |} = Fail.
+Proof.
+  intros p X f. set (st := {| pk := p; rest := sp rbrace X |}).
+  assert (E1 : interp g (35 + f) MOR1 st = Fail) by (unfold MOR1; change (35 + f) with (S (34 + f)); rewrite or2_r; [apply (ctor_b p X (20 + f)) | apply (dunder_b p X (25 + f))]).
+  assert (E2 : interp g (36 + f) MOR2 st = Fail) by (unfold MOR2; change (36 + f) with (S (35 + f)); rewrite or2_r; [apply (method_b p X (10 + f)) | exact E1]).
+  assert (E3 : interp g (37 + f) MOR3 st = Fail) by (unfold MOR3; change (37 + f) with (S (36 + f)); rewrite or2_r; [apply (static_b p X (19 + f)) | exact E2]).
+  assert (E4 : interp g (38 + f) MOR4 st = Fail) by (unfold MOR4; change (38 + f) with (S (37 + f)); rewrite or2_r; [apply (var_b p X (9 + f)) | exact E3]).
+  assert (E5 : interp g (39 + f) MOR5 st = Fail) by (unfold MOR5; change (39 + f) with (S (38 + f)); rewrite or2_r; [apply (oper_b p X (13 + f)) | exact E4]).
+  unfold MOR6. change (40 + f) with (S (39 + f)). rewrite or2_r; [apply (enum_b p X (12 + f)) | exact E5].
+Qed.
+
+(* ---- `[virtual] class Name { members } ;` (no template, no base class) ---- *)
+Definition items_of (vs : list value) : list item := map (fun v => ([], v)) vs.
+Definition class_value (virt : bool) (n : chars) (mvals : list value) : value :=
+  VNode "Class" (virt_items virt ++ [([], VStr "class"); (["name"%string], VStr (string_of n));
+                                     (["members"%string], VNode "Class.Members" (items_of mvals))]).
+Definition class_toks (virt : bool) (n : chars) (mtoks : list chars) : list chars :=
+  virt_toks virt ++ [kclass; n; lbrace] ++ mtoks ++ [rbrace; semi].
+
+Lemma class_ok : forall (Q : list value -> Prop) (virt : bool) n mtoks R F, is_ident n = true -> 20 <= F ->
+  (forall p, exists mvals p', star (interp g F) F MOR6 [] {| pk := p; rest := render mtoks (sp rbrace (sp semi R)) |}
+                              = Match (items_of mvals) {| pk := p'; rest := sp rbrace (sp semi R) |} /\ Q mvals) ->
+  forall p, exists mvals p', interp g (7 + F) (GRef "Class") {| pk := p; rest := render (class_toks virt n mtoks) R |}
+                             = Match [([], class_value virt n mvals)] {| pk := p'; rest := R |} /\ Q mvals.
+Proof.
+  intros Q virt n mtoks R F Hn HF Hstar p.
+  assert (XF : exists f, F = 13 + f) by (exists (F - 13); lia). destruct XF as [f EF].
+  set (AFTER := sp rbrace (sp semi R)) in *. set (BODY := render mtoks AFTER) in *.
+  set (TAIL := sp n (sp lbrace BODY)).
+  assert (ET : render (class_toks virt n mtoks) R = render (virt_toks virt) (sp kclass TAIL)).
+  { unfold class_toks, TAIL, BODY, AFTER. rewrite !render_app. reflexivity. }
+  rewrite ET. clear ET.
+  assert (Bd : boundary TAIL) by (right; eexists; reflexivity).
+  assert (Bc : boundary (sp kclass TAIL)) by (right; eexists; reflexivity).
+  assert (Wc : word kclass) by (split; [discriminate | reflexivity]).
+  assert (Wv : word kvirtual) by (split; [discriminate | reflexivity]).
+  (* the head: optional template (absent), optional `virtual`, then `class` *)
+  assert (Head : exists q, seq (interp g (Sn 11 f)) [GOpt (GName "template" (GRef "Template")); GOpt (GName "is_virtual" (GTerm (TKw "virtual")))] []
+                               {| pk := p; rest := render (virt_toks virt) (sp kclass TAIL) |}
+                           = Match (virt_items virt) {| pk := q; rest := sp kclass TAIL |}).
+  { destruct virt; cbn [virt_toks virt_items render fold_right Sn].
+    - pose proof (template_opt_none (4 + f) p kvirtual (sp kclass TAIL) Wv Bc ltac:(discriminate)) as T. unfold TEMPLATE_OPT in T. cbn [Nat.add] in T.
+      rewrite seq_cons, T. cbn [app]. rewrite seq_cons, i_opt, i_name, i_term.
+      destruct (kw_self p "v"%char (chars_of "irtual") (sp kclass TAIL) eq_refl Bc) as [q1 E1].
+      change (string_of ("v"%char :: chars_of "irtual")) with "virtual"%string in E1.
+      change (sp ("v"%char :: chars_of "irtual") (sp kclass TAIL)) with (sp kvirtual (sp kclass TAIL)) in E1. rewrite E1.
+      cbn [map add_name fst snd app]. rewrite seq_nil. exists q1. reflexivity.
+    - pose proof (template_opt_none (4 + f) p kclass TAIL Wc Bd ltac:(discriminate)) as T. unfold TEMPLATE_OPT in T. cbn [Nat.add] in T.
+      rewrite seq_cons, T. cbn [app]. rewrite seq_cons, i_opt, i_name.
+      rewrite (kw_word_fail _ p "virtual" kclass TAIL Wc Bd (safe_nospace _ _ no_blank_virtual) ltac:(discriminate)).
+      cbn [app]. rewrite seq_nil. exists p. reflexivity. }
+  destruct Head as [q EH].
+  subst F. change (7 + (13 + f)) with (Sn 20 f). cbn [Sn]. rule "Class"%string.
+  rewrite i_and, seq_cons, i_and, seq_cons, i_and, seq_cons, i_and, seq_cons, i_and, seq_cons, i_and, seq_cons, i_and, seq_cons, i_and.
+  cbn [Sn] in EH. rewrite EH. rewrite seq_cons, i_term.
+  destruct (kw_self q "c"%char (chars_of "lass") TAIL eq_refl Bd) as [q1 E1].
+  change (string_of ("c"%char :: chars_of "lass")) with "class"%string in E1.
+  change (sp ("c"%char :: chars_of "lass") TAIL) with (sp kclass TAIL) in E1. rewrite E1, seq_nil. rewrite seq_cons, i_name. unfold TAIL.
+  assert (Bl : boundary (sp lbrace BODY)) by (right; eexists; reflexivity).
+  destruct (IDENT_ok (Sn 10 f) q1 n (sp lbrace BODY) Hn Bl) as [q2 E2]. cbn [Sn] in E2. unfold IDENT in E2. rewrite E2.
+  cbn [map add_name fst snd]. rewrite seq_nil. rewrite seq_cons, i_opt, i_and, seq_cons, i_sup.
+  rewrite (lit1_other _ q2 ":"%char "{"%char [] BODY eq_refl eq_refl). rewrite seq_nil. rewrite seq_cons, i_sup.
+  destruct (lit1_at (Sn 13 f) q2 "{"%char BODY eq_refl) as [q3 E3]. cbn [Sn] in E3. change (sp ["{"%char] BODY) with (sp lbrace BODY) in E3.
+  rewrite E3, seq_nil. rewrite seq_cons, i_name, (i_ref _ _ "Class.Members" (GStar MOR6) members_rule), i_star.
+  destruct (Hstar q3) as [mvals [q4 [E4 HQ]]]. cbn [Nat.add] in E4. rewrite E4. cbn [map add_name fst snd]. rewrite seq_nil.
+  rewrite seq_cons, i_sup. unfold AFTER.
+  destruct (lit1_at (Sn 15 f) q4 "}"%char (sp semi R) eq_refl) as [q5 E5]. cbn [Sn] in E5. change (sp ["}"%char] (sp semi R)) with (sp rbrace (sp semi R)) in E5.
+  rewrite E5, seq_nil. rewrite seq_cons, i_sup.
+  destruct (lit1_at (Sn 16 f) q5 ";"%char R eq_refl) as [q6 E6]. cbn [Sn] in E6. change (sp [";"%char] R) with (sp semi R) in E6.
+  rewrite E6, seq_nil. exists mvals, q6. split; [|exact HQ]. unfold class_value. rewrite !app_nil_r, <- !app_assoc. reflexivity.
+Qed.
+
+Lemma snd_items0 : forall vs, map snd (items_of vs) = vs.
+Proof. induction vs as [|v vs IH]; [reflexivity|]. unfold items_of in *. cbn [map snd]. f_equal. exact IH. Qed.
+
+Definition class_of_members (virt : bool) (n : string) (ms : list member) : class :=
+  {| c_tmpl := None; c_virtual := virt; c_name := n; c_base := None;
+     c_ctors := flat_map (fun m => match m with MCtor k => [k] | _ => [] end) ms;
+     c_methods := flat_map (fun m => match m with MMethod x => [x] | _ => [] end) ms;
+     c_statics := flat_map (fun m => match m with MStatic x => [x] | _ => [] end) ms;
+     c_dunders := flat_map (fun m => match m with MDunder x => [x] | _ => [] end) ms;
+     c_props := flat_map (fun m => match m with MVar x => [x] | _ => [] end) ms;
+     c_ops := flat_map (fun m => match m with MOper x => [x] | _ => [] end) ms;
+     c_enums := flat_map (fun m => match m with MEnum x => [x] | _ => [] end) ms |}.
+
+Lemma b_decl_class : forall k virt n mvals ms, mapM b_member mvals = Ok ms ->
+  forallb (fun c => String.eqb (k_name c) (string_of n)) (flat_map (fun m => match m with MCtor c => [c] | _ => [] end) ms) = true ->
+  b_decl (S k) (class_value virt n mvals) = Ok (DClass (class_of_members virt (string_of n) ms)).
+Proof.
+  intros k virt n mvals ms HM HC. unfold class_value. cbn [b_decl].
+  change (String.eqb "Class" "Class") with true. cbv iota. unfold b_class, b_tmpl, name_of.
+  set (L := [([], VStr "class"); (["name"%string], VStr (string_of n)); (["members"%string], VNode "Class.Members" (items_of mvals))]).
+  assert (E1 : first_named "template" (virt_items virt ++ L) = None) by (destruct virt; reflexivity).
+  assert (E2 : first_named "name" (virt_items virt ++ L) = Some (VStr (string_of n))) by (destruct virt; reflexivity).
+  assert (E3 : first_named "parent_class" (virt_items virt ++ L) = None) by (destruct virt; reflexivity).
+  assert (E4 : first_named "members" (virt_items virt ++ L) = Some (VNode "Class.Members" (items_of mvals))) by (destruct virt; reflexivity).
+  assert (E5 : flag "is_virtual" (virt_items virt ++ L) = virt) by (destruct virt; reflexivity).
+  rewrite E1, E2, E3, E4, E5. cbn [bind]. rewrite snd_items0, HM. cbn [bind]. rewrite HC. reflexivity.
+Qed.
+
+Lemma content_step_class : forall (virt : bool) name mtoks ms F, is_ident (chars_of name) = true -> 40 <= F ->
+  (forall R p, exists mvals p', star (interp g F) F MOR6 [] {| pk := p; rest := render mtoks (sp rbrace (sp semi R)) |}
+                                = Match (items_of mvals) {| pk := p'; rest := sp rbrace (sp semi R) |} /\ mapM b_member mvals = Ok ms) ->
+  forallb (fun c => String.eqb (k_name c) name) (flat_map (fun m => match m with MCtor c => [c] | _ => [] end) ms) = true ->
+  forall p R f, F + 13 <= f ->
+  exists v p', interp g f OR7 {| pk := p; rest := render (class_toks virt (chars_of name) mtoks) R |} = Match [([], v)] {| pk := p'; rest := R |}
+               /\ forall k, b_decl (S k) v = Ok (DClass (class_of_members virt name ms)).
+Proof.
+  intros virt name mtoks ms F Hn HF Hstar HC p R f Hf. set (n := chars_of name) in *.
+  assert (XF : exists F0, F = 40 + F0) by (exists (F - 40); lia). destruct XF as [F0 EF0]. subst F. set (F := 40 + F0) in *.
+  assert (X : exists z, f = Sn 7 (6 + F + z)) by (exists (f - 13 - F); cbn [Sn]; lia). destruct X as [z Ef]. subst f. cbn [Sn].
+  (* more fuel for the members does not change their parse *)
+  assert (Hstar' : forall q, exists mvals q', star (interp g (F + z)) (F + z) MOR6 [] {| pk := q; rest := render mtoks (sp rbrace (sp semi R)) |}
+                                             = Match (items_of mvals) {| pk := q'; rest := sp rbrace (sp semi R) |} /\ mapM b_member mvals = Ok ms).
+  { intros q. destruct (Hstar R q) as [mvals [q' [E HM]]]. exists mvals, q'. split; [|exact HM].
+    pose proof (fuel_mono run_term g (S F) (GStar MOR6) {| pk := q; rest := render mtoks (sp rbrace (sp semi R)) |}) as M.
+    change (interp_with run_term g) with (interp g) in M. rewrite !i_star in M. rewrite E in M.
+    specialize (M ltac:(discriminate) (S (F + z)) ltac:(lia)). rewrite i_star in M. exact M. }
+  destruct (class_ok (fun vs => mapM b_member vs = Ok ms) virt n mtoks R (F + z) Hn ltac:(lia) Hstar' p) as [mvals [p' [E HM]]].
+  exists (class_value virt n mvals), p'. split.
+  2:{ intros k. rewrite <- (string_chars name). fold n. apply b_decl_class; [exact HM|]. unfold n. rewrite string_chars. exact HC. }
+  assert (Wc : word kclass) by (split; [discriminate | reflexivity]).
+  assert (Wv : word kvirtual) by (split; [discriminate | reflexivity]).
+  set (BODY := render (mtoks ++ [rbrace; semi]) R).
+  set (TAIL := sp n (sp lbrace BODY)).
+  assert (ET : render (class_toks virt n mtoks) R = render (virt_toks virt) (sp kclass TAIL)).
+  { unfold class_toks, TAIL, BODY. rewrite !render_app. reflexivity. }
+  rewrite ET in *. clear ET.
+  assert (Bd : boundary TAIL) by (right; eexists; reflexivity).
+  assert (Bc : boundary (sp kclass TAIL)) by (right; eexists; reflexivity).
+  pose proof (fwd_fails_class virt (33 + F0 + z) p n BODY Hn) as FF. fold TAIL in FF.
+  destruct (ident_first_alpha n Hn) as [c [w [En Hc]]]. destruct (alpha_plain c Hc) as [Cs [Cl [Ce [Csm _]]]].
+  assert (EQ : 7 + (F + z) = S (6 + F + z)) by lia. rewrite EQ in E.
+  assert (EQ2 : 13 + (33 + F0 + z) = 6 + (40 + F0) + z) by lia. rewrite EQ2 in FF.
+  destruct virt; cbn [virt_toks render fold_right] in E, FF |- *.
+  - unfold OR7. apply or2_l; [|apply (namespace_fails p kvirtual _ Wv Bc (5 + F + z)); discriminate].
+    unfold OR6. apply or2_l.
+    2:{ unfold TAIL. rewrite En. apply (variable_fails 13 [kvirtual] (ty_value (kw_type "virtual")) kclass c w (sp lbrace BODY) virtual_parses eq_refl Cs Ce Csm (3 + F + z) p). lia. }
+    unfold OR5. apply or2_l; [|apply (enum_fails2 p kvirtual _ (F + z) Wv Bc); discriminate].
+    unfold OR4. apply or2_l.
+    2:{ unfold TAIL. rewrite En. apply (function_fails 13 [kvirtual] (ty_value (kw_type "virtual")) kclass c w (sp lbrace BODY) virtual_parses
+                                         (wf_head_kw kvirtual Wv ltac:(discriminate) ltac:(discriminate)) eq_refl Cs Cl (29 + F0 + z) p). lia. }
+    unfold OR3. apply or2_l; [|apply (typedef_fails2 p kvirtual _ (2 + F + z) Wv Bc); discriminate].
+    unfold OR2. rewrite or2_r; [exact E|].
+    unfold OR1. rewrite or2_r; [apply (include_fails2 p kvirtual _ (F + z) Wv Bc) | exact FF].
+  - unfold OR7. apply or2_l; [|apply (namespace_fails p kclass _ Wc Bd (5 + F + z)); discriminate].
+    unfold OR6. apply or2_l.
+    2:{ unfold TAIL. apply (variable_fails 13 [kclass] (ty_value (kw_type "class")) n "{"%char [] BODY class_parses Hn eq_refl eq_refl eq_refl (3 + F + z) p). lia. }
+    unfold OR5. apply or2_l; [|apply (enum_fails2 p kclass _ (F + z) Wc Bd); discriminate].
+    unfold OR4. apply or2_l.
+    2:{ unfold TAIL. apply (function_fails 13 [kclass] (ty_value (kw_type "class")) n "{"%char [] BODY class_parses
+                                         (wf_head_kw kclass Wc ltac:(discriminate) ltac:(discriminate)) Hn eq_refl eq_refl (29 + F0 + z) p). lia. }
+    unfold OR3. apply or2_l; [|apply (typedef_fails2 p kclass _ (2 + F + z) Wc Bd); discriminate].
+    unfold OR2. rewrite or2_r; [exact E|].
+    unfold OR1. rewrite or2_r; [apply (include_fails2 p kclass _ (F + z) Wc Bd) | exact FF].
+Qed.
+
+(* ---- class members: constructors, methods, properties ---- *)
+(* the token after the first token of a type that is followed by an identifier: `::`, `<`, a marker, or the identifier *)
+Lemma ty_second : forall t n tl, wf_ty t -> is_ident n = true ->
+  exists h c t' rest', ty_toks t ++ n :: tl = h :: (c :: t') :: rest' /\ is_ident h = true /\ solid c = true /\ ceq "("%char c = false.
+Proof.
+  intros t n tl Hw Hn.
+  destruct (ident_first_alpha n Hn) as [cn [wn [En Hcn]]]. destruct (alpha_plain cn Hcn) as [Sn_ [Ln _]].
+  assert (Wk : is_ident kconst = true) by reflexivity.
+  destruct t as [[ns [nm|o] insts] c k basic | ns [nm|o] ps c k]; cbn [wf_ty] in Hw; try contradiction.
+  - destruct Hw as [Hi Hb]. subst insts. cbn [ty_toks].
+    assert (Hp : Forall (fun x => is_ident x = true) (names_of ns nm)).
+    { destruct basic; [|exact (proj1 Hb)]. destruct Hb as [E Hin]. subst ns. cbn. constructor; [|constructor]. exact (proj1 (basic_ident nm Hin)). }
+    destruct (names_of_cons ns nm) as [h [l [E _]]]. rewrite E in *. pose proof (Forall_inv Hp) as Hh. rewrite path_toks_cons.
+    destruct (ident_first_alpha h Hh) as [ch [wh [Eh Hch]]]. destruct (alpha_plain ch Hch) as [Sh [Lh _]].
+    destruct c; cbn [const_toks app].
+    + exists kconst, ch, wh. eexists. split; [rewrite Eh; reflexivity|]. split; [exact Wk|]. split; assumption.
+    + destruct l as [|m l]; cbn [tail_toks flat_map app].
+      * destruct k; cbn [marker app].
+        -- exists h, cn, wn. eexists. split; [rewrite En; reflexivity|]. split; [exact Hh|]. split; assumption.
+        -- exists h, "*"%char, []. eexists. split; [reflexivity|]. split; [exact Hh|]. split; reflexivity.
+        -- exists h, "@"%char, []. eexists. split; [reflexivity|]. split; [exact Hh|]. split; reflexivity.
+        -- exists h, "&"%char, []. eexists. split; [reflexivity|]. split; [exact Hh|]. split; reflexivity.
+      * exists h, ":"%char, [":"%char]. eexists. split; [reflexivity|]. split; [exact Hh|]. split; reflexivity.
+  - destruct Hw as [[Hp _] _]. cbn [ty_toks]. unfold tt_toks.
+    destruct (names_of_cons ns nm) as [h [l [E _]]]. rewrite E in *. pose proof (Forall_inv Hp) as Hh. rewrite path_toks_cons.
+    destruct (ident_first_alpha h Hh) as [ch [wh [Eh Hch]]]. destruct (alpha_plain ch Hch) as [Sh [Lh _]].
+    destruct c; cbn [const_toks app].
+    + exists kconst, ch, wh. eexists. split; [rewrite Eh; reflexivity|]. split; [exact Wk|]. split; assumption.
+    + destruct l as [|m l]; cbn [tail_toks flat_map app].
+      * exists h, "<"%char, []. eexists. split; [reflexivity|]. split; [exact Hh|]. split; reflexivity.
+      * exists h, ":"%char, [":"%char]. eexists. split; [reflexivity|]. split; [exact Hh|]. split; reflexivity.
+Qed.
+
+Lemma lit_noprefix : forall p (l : string) n r, word n -> boundary r -> ~ In " "%char (chars_of l) -> prefix (chars_of l) n = None ->
+  run_term (TLit l) {| pk := p; rest := sp n r |} = Fail.
+Proof.
+  intros p l n r [Hne Hn] Hr Hb Hp. destruct n as [|c w]; [contradiction|].
+  assert (Hc : solid c = true) by (cbn [forallb] in Hn; apply andb_true_iff in Hn; apply alnum_solid; tauto).
+  unfold run_term. cbn [pre_term]. rewrite (pre_sp p c w r Hc). cbn [rest].
+  destruct (prefix (chars_of l) ((c :: w) ++ r)) as [x|] eqn:P; [|reflexivity]. exfalso.
+  destruct (prefix_word (chars_of l) (c :: w) r x Hr Hn (safe_nospace _ _ Hb) P) as [n2 [E _]].
+  rewrite E, prefix_self in Hp. discriminate.
+Qed.
+
+Definition koperator : chars := chars_of "operator".
+Definition kstatic : chars := chars_of "static".
+Definition no_us (h : chars) : Prop := match h with c :: _ => ceq "_"%char c = false | [] => False end.
+
+Section MemberAlts.
+  Variables (p : bool) (h r : chars).
+  Hypothesis Hw : word h.
+  Hypothesis B : boundary r.
+
+  Lemma dunder_fails_w : forall f, no_us h -> interp g (9 + f) (GRef "DunderMethod") {| pk := p; rest := sp h r |} = Fail.
+  Proof.
+    intros f Hu. cbn [Nat.add]. rule "DunderMethod"%string.
+    rewrite i_and, seq_cons, i_and, seq_cons, i_and, seq_cons, i_and, seq_cons, i_and, seq_cons, i_and, seq_cons, i_sup, i_term.
+    destruct h as [|c t]; [contradiction|]. cbn [no_us] in Hu.
+    assert (Hc : solid c = true) by (destruct Hw as [_ Hn]; cbn [forallb] in Hn; apply andb_true_iff in Hn; apply alnum_solid; tauto).
+    pose proof (lit_fail p (chars_of "__") c t r Hc Hu) as L. change (string_of (chars_of "__")) with "__"%string in L. rewrite L. reflexivity.
+  Qed.
+  Lemma static_fails_w : forall f, h <> ktemplate -> h <> kstatic -> interp g (17 + f) (GRef "StaticMethod") {| pk := p; rest := sp h r |} = Fail.
+  Proof.
+    intros f H0 H1. cbn [Nat.add]. rule "StaticMethod"%string.
+    rewrite i_and, seq_cons, i_and, seq_cons, i_and, seq_cons, i_and, seq_cons, i_and, seq_cons, i_and, seq_cons, i_and, seq_cons.
+    pose proof (template_opt_none (2 + f) p h r Hw B H0) as T. unfold TEMPLATE_OPT in T. cbn [Nat.add] in T. rewrite T. clear T. cbn [app]. rewrite seq_cons.
+    assert (Nb : ~ In " "%char (chars_of "static")) by noblank.
+    rewrite (kw_word_fail _ p "static" h r Hw B (safe_nospace _ _ Nb)) by (intros E; apply H1; symmetry; exact E). reflexivity.
+  Qed.
+End MemberAlts.
+
+(* a constructor needs `(` right after its name *)
+Lemma ctor_fails_second : forall p h c t X f, is_ident h = true -> h <> ktemplate -> solid c = true -> ceq "("%char c = false ->
+  interp g (14 + f) (GRef "Constructor") {| pk := p; rest := sp h (sp (c :: t) X) |} = Fail.
+Proof.
+  intros p h c t X f Hh H0 Hc Hl. cbn [Nat.add]. rule "Constructor"%string.
+  rewrite i_and, seq_cons, i_and, seq_cons, i_and, seq_cons, i_and, seq_cons, i_and, seq_cons.
+  assert (Bd : boundary (sp (c :: t) X)) by (right; eexists; reflexivity).
+  pose proof (template_opt_none (1 + f) p h _ (ident_word h Hh) Bd H0) as T. unfold TEMPLATE_OPT in T. cbn [Nat.add] in T. rewrite T. clear T.
+  cbn [app]. rewrite seq_cons, i_name.
+  destruct (IDENT_ok (5 + f) p h (sp (c :: t) X) Hh Bd) as [p1 E1]. cbn [Nat.add] in E1. unfold IDENT in E1. rewrite E1.
+  cbn [map add_name fst snd]. rewrite seq_nil. cbn [app]. rewrite seq_cons, i_sup.
+  rewrite (lit1_other _ p1 "("%char c t X Hc Hl). reflexivity.
+Qed.
+
+Definition ctor_toks (n : chars) (args : list (ty * string)) : list chars := [n; lparen] ++ args_toks args ++ [rparen; semi].
+Definition ctor_member (n : string) (args : list (ty * string)) : member :=
+  MCtor {| k_tmpl := None; k_name := n; k_args := map mk_arg args |}.
+
+Lemma ctor_ok : forall n args, is_ident n = true -> n <> ktemplate -> Forall wf_arg args ->
+  forall p R f, args_fuel args <= f ->
+  exists v p', interp g (14 + f) (GRef "Constructor") {| pk := p; rest := render (ctor_toks n args) R |} = Match [([], v)] {| pk := p'; rest := R |}
+               /\ b_member v = Ok (ctor_member (string_of n) args).
+Proof.
+  intros n args Hn H0 Ha p R f Hf. cbn [Nat.add]. rule "Constructor"%string.
+  rewrite i_and, seq_cons, i_and, seq_cons, i_and, seq_cons, i_and, seq_cons, i_and, seq_cons.
+  unfold ctor_toks. rewrite !render_app. change (render [n; lparen] ?x) with (sp n (sp lparen x)).
+  change (render [rparen; semi] R) with (sp rparen (sp semi R)).
+  set (AFTER := sp semi R). set (ARGS := render (args_toks args) (sp rparen AFTER)).
+  assert (Bl : boundary (sp lparen ARGS)) by (right; eexists; reflexivity).
+  pose proof (template_opt_none (1 + f) p n _ (ident_word n Hn) Bl H0) as T. unfold TEMPLATE_OPT in T. cbn [Nat.add] in T. rewrite T. clear T.
+  cbn [app]. rewrite seq_cons, i_name.
+  destruct (IDENT_ok (5 + f) p n (sp lparen ARGS) Hn Bl) as [p1 E1]. cbn [Nat.add] in E1. unfold IDENT in E1. rewrite E1.
+  cbn [map add_name fst snd]. rewrite seq_nil. cbn [app]. rewrite seq_cons, i_sup.
+  destruct (lit1_at (Sn 7 f) p1 "("%char ARGS eq_refl) as [p2 E2]. cbn [Sn] in E2. change (sp ["("%char] ARGS) with (sp lparen ARGS) in E2.
+  rewrite E2, seq_nil. cbn [app]. rewrite seq_cons, i_name. unfold ARGS.
+  destruct (arglist_roundtrip args Ha p2 AFTER (Sn 9 f) ltac:(cbn [Sn]; lia)) as [va [p3 [E3 B3]]]. cbn [Sn] in E3. rewrite E3.
+  cbn [map add_name fst snd]. rewrite seq_nil. cbn [app]. rewrite seq_cons, i_sup.
+  destruct (lit1_at (Sn 9 f) p3 ")"%char AFTER eq_refl) as [p4 E4]. cbn [Sn] in E4. change (sp [")"%char] AFTER) with (sp rparen AFTER) in E4.
+  rewrite E4, seq_nil. cbn [app]. rewrite seq_cons, i_sup. unfold AFTER.
+  destruct (lit1_at (Sn 10 f) p4 ";"%char R eq_refl) as [p5 E5]. cbn [Sn] in E5. change (sp [";"%char] R) with (sp semi R) in E5.
+  rewrite E5, seq_nil. cbn [app]. eexists. exists p5. split; [reflexivity|].
+  cbn [b_member]. unfold add_name. cbn [fst snd]. change (String.eqb "Constructor" "Constructor") with true. cbv iota. unfold b_tmpl, name_of, args_of.
+  change (first_named "template" [(["name"%string], VStr (string_of n)); (["args_list"%string], va)]) with (@None value).
+  change (first_named "name" [(["name"%string], VStr (string_of n)); (["args_list"%string], va)]) with (Some (VStr (string_of n))).
+  change (first_named "args_list" [(["name"%string], VStr (string_of n)); (["args_list"%string], va)]) with (Some va).
+  cbv iota. cbn [bind]. rewrite B3. reflexivity.
+Qed.
+
+Definition method_member (t : ty) (n : string) (args : list (ty * string)) (cst : bool) : member :=
+  MMethod {| m_tmpl := None; m_name := n; m_ret := RSingle t; m_args := map mk_arg args; m_const := cst |}.
+Definition method_toks (t : ty) (n : chars) (args : list (ty * string)) (cst : bool) : list chars :=
+  ty_toks t ++ [n; lparen] ++ args_toks args ++ [rparen] ++ const_toks cst ++ [semi].
+
+Lemma method_ok : forall t n args cst, wf_ty t -> depth t < depth_fuel -> wf_head t -> is_ident n = true -> Forall wf_arg args ->
+  forall p R f, fuel_of t <= f -> args_fuel args <= f ->
+  exists v p', interp g (20 + f) (GRef "Method") {| pk := p; rest := render (method_toks t n args cst) R |} = Match [([], v)] {| pk := p'; rest := R |}
+               /\ b_member v = Ok (method_member t (string_of n) args cst).
+Proof.
+  intros t n args cst Hw Hd [h [rest' [Eh [Hwh [Hkp Hkt]]]]] Hn Ha p R f Hft Hfa. cbn [Nat.add]. rule "Method"%string.
+  rewrite i_and, seq_cons, i_and, seq_cons, i_and, seq_cons, i_and, seq_cons, i_and, seq_cons, i_and, seq_cons, i_and, seq_cons.
+  unfold method_toks. rewrite !render_app. change (render [n; lparen] ?x) with (sp n (sp lparen x)).
+  change (render [rparen] ?x) with (sp rparen x). change (render [semi] R) with (sp semi R).
+  set (AFTER := render (const_toks cst) (sp semi R)). set (ARGS := render (args_toks args) (sp rparen AFTER)).
+  set (NAME := sp n (sp lparen ARGS)).
+  rewrite Eh. change (render (h :: rest') NAME) with (sp h (render rest' NAME)).
+  assert (Fn : follow NAME) by (apply follow_ident; exact Hn).
+  assert (B : boundary (render rest' NAME)) by (apply render_boundary, follow_boundary; exact Fn).
+  pose proof (template_opt_none (5 + f) p h _ Hwh B Hkt) as T. unfold TEMPLATE_OPT in T. cbn [Nat.add] in T. rewrite T. clear T.
+  cbn [app]. rewrite seq_cons, i_name.
+  change (sp h (render rest' NAME)) with (render (h :: rest') NAME). rewrite <- Eh.
+  assert (HP : parses (fuel_of t) (ty_toks t) (ty_value t)) by (apply (ty_parses (S (depth t))); [apply Nat.lt_succ_diag_r | exact Hw]).
+  assert (HH : head_word (ty_toks t)) by (exists h, rest'; split; [exact Eh | split; [exact Hwh | exact Hkp]]).
+  destruct (rt_single_ok (fuel_of t) (ty_toks t) (ty_value t) HP HH f p NAME Fn Hft) as [p1 E1]. cbn [Nat.add] in E1. rewrite E1.
+  cbn [map add_name fst snd app]. rewrite seq_nil. cbn [app]. rewrite seq_cons, i_name.
+  assert (Bl : boundary (sp lparen ARGS)) by (right; eexists; reflexivity).
+  unfold NAME. destruct (IDENT_ok (Sn 10 f) p1 n (sp lparen ARGS) Hn Bl) as [p2 E2]. cbn [Sn] in E2. unfold IDENT in E2. rewrite E2.
+  cbn [map add_name fst snd]. rewrite seq_nil. cbn [app]. rewrite seq_cons, i_sup.
+  destruct (lit1_at (Sn 12 f) p2 "("%char ARGS eq_refl) as [p3 E3]. cbn [Sn] in E3. change (sp ["("%char] ARGS) with (sp lparen ARGS) in E3.
+  rewrite E3, seq_nil. cbn [app]. rewrite seq_cons, i_name. unfold ARGS.
+  destruct (arglist_roundtrip args Ha p3 AFTER (Sn 14 f) ltac:(cbn [Sn]; lia)) as [va [p4 [E4 B4]]]. cbn [Sn] in E4. rewrite E4.
+  cbn [map add_name fst snd]. rewrite seq_nil. cbn [app]. rewrite seq_cons, i_sup.
+  destruct (lit1_at (Sn 14 f) p4 ")"%char AFTER eq_refl) as [p5 E5]. cbn [Sn] in E5. change (sp [")"%char] AFTER) with (sp rparen AFTER) in E5.
+  rewrite E5, seq_nil. cbn [app]. rewrite seq_cons, i_opt, i_name, i_term. unfold AFTER.
+  destruct cst; cbn [const_toks const_items render fold_right].
+  - assert (Bs : boundary (sp semi R)) by (right; eexists; reflexivity).
+    destruct (kw_self p5 "c"%char (chars_of "onst") (sp semi R) eq_refl Bs) as [q E].
+    change (string_of ("c"%char :: chars_of "onst")) with "const"%string in E.
+    change (sp ("c"%char :: chars_of "onst") (sp semi R)) with (sp kconst (sp semi R)) in E. rewrite E. cbn [map add_name fst snd].
+    rewrite seq_nil. cbn [app]. rewrite seq_cons, i_sup.
+    destruct (lit1_at (Sn 16 f) q ";"%char R eq_refl) as [p6 E6]. cbn [Sn] in E6. change (sp [";"%char] R) with (sp semi R) in E6.
+    rewrite E6, seq_nil. cbn [app]. eexists. exists p6. split; [reflexivity|].
+    cbn [b_member]. unfold add_name. cbn [fst snd map app]. change (String.eqb "Method" "Constructor") with false. change (String.eqb "Method" "Method") with true. cbv iota.
+    unfold b_tmpl, name_of, ret_of, args_of.
+    match goal with |- context [first_named "template" ?L] =>
+      change (first_named "template" L) with (@None value); change (first_named "name" L) with (Some (VStr (string_of n)));
+      change (first_named "return_type" L) with (Some (VNode "ReturnType" [(["type1"%string], ty_value t)]));
+      change (first_named "args_list" L) with (Some va) end.
+    cbv iota. cbn [bind].
+    rewrite (b_ret_single (ty_value t) t ltac:(unfold b_type; apply (ty_rebuilt depth_fuel t Hd Hw))). cbn [bind]. rewrite B4. reflexivity.
+  - pose proof (kw_fail_first 0 p5 "const" ";"%char [] R eq_refl eq_refl) as E. rewrite i_term in E.
+    change (sp [";"%char] R) with (sp semi R) in E. rewrite E. set (q := p5).
+    rewrite seq_nil. cbn [app]. rewrite seq_cons, i_sup.
+    destruct (lit1_at (Sn 16 f) q ";"%char R eq_refl) as [p6 E6]. cbn [Sn] in E6. change (sp [";"%char] R) with (sp semi R) in E6.
+    rewrite E6, seq_nil. cbn [app]. eexists. exists p6. split; [reflexivity|].
+    cbn [b_member]. unfold add_name. cbn [fst snd map app]. change (String.eqb "Method" "Constructor") with false. change (String.eqb "Method" "Method") with true. cbv iota.
+    unfold b_tmpl, name_of, ret_of, args_of.
+    match goal with |- context [first_named "template" ?L] =>
+      change (first_named "template" L) with (@None value); change (first_named "name" L) with (Some (VStr (string_of n)));
+      change (first_named "return_type" L) with (Some (VNode "ReturnType" [(["type1"%string], ty_value t)]));
+      change (first_named "args_list" L) with (Some va) end.
+    cbv iota. cbn [bind].
+    rewrite (b_ret_single (ty_value t) t ltac:(unfold b_type; apply (ty_rebuilt depth_fuel t Hd Hw))). cbn [bind]. rewrite B4. reflexivity.
+Qed.
+
+Lemma name_parses : forall n, is_ident n = true -> ~ In n reserved -> parses 13 [n] (VNode "Type" (custom_items false [n] PNone)).
+Proof.
+  intros n Hn Hr f p r Hfo Hf. assert (X : exists f', f = 13 + f') by (exists (f - 13); lia). destruct X as [f' E]. subst f.
+  apply (ty_custom_ok f' p false n [] PNone r Hn (Forall_nil _) Hr Hfo). cbn. lia.
+Qed.
+
+(* a method needs a name after its return type ... *)
+Lemma method_fails_noname : forall F0 toks v c t X, parses F0 toks v -> wf_head_toks toks ->
+  solid c = true -> in_str alpha_ c = false -> cmem c (chars_of digits) = false -> cmem c (chars_of "*@&:<") = false ->
+  forall f p, F0 <= f -> interp g (20 + f) (GRef "Method") {| pk := p; rest := render toks (sp (c :: t) X) |} = Fail.
+Proof.
+  intros F0 toks v c t X Hp [h [rest' [Eh [Hwh [Hkp Hkt]]]]] Hc Ha Hd Hm f p Hf. cbn [Nat.add]. rule "Method"%string.
+  rewrite i_and, seq_cons, i_and, seq_cons, i_and, seq_cons, i_and, seq_cons, i_and, seq_cons, i_and, seq_cons, i_and, seq_cons.
+  set (NEXT := sp (c :: t) X).
+  assert (Fn : follow NEXT) by (right; exists c, (t ++ X); split; [reflexivity|]; split; assumption).
+  rewrite Eh. change (render (h :: rest') NEXT) with (sp h (render rest' NEXT)).
+  assert (B : boundary (render rest' NEXT)) by (apply render_boundary, follow_boundary; exact Fn).
+  pose proof (template_opt_none (5 + f) p h _ Hwh B Hkt) as T. unfold TEMPLATE_OPT in T. cbn [Nat.add] in T. rewrite T. clear T.
+  cbn [app]. rewrite seq_cons, i_name. change (sp h (render rest' NEXT)) with (render (h :: rest') NEXT). rewrite <- Eh.
+  assert (HH : head_word toks) by (exists h, rest'; split; [exact Eh | split; [exact Hwh | exact Hkp]]).
+  destruct (rt_single_ok F0 toks v Hp HH f p NEXT Fn Hf) as [p1 E1]. cbn [Nat.add] in E1. rewrite E1.
+  cbn [map add_name fst snd app]. rewrite seq_nil. cbn [app]. rewrite seq_cons, i_name.
+  pose proof (IDENT_fail (Sn 10 f) p1 c t X Hc Ha Hd) as E2. cbn [Sn] in E2. unfold IDENT in E2. unfold NEXT. rewrite E2. reflexivity.
+Qed.
+(* ... and `(` after the name *)
+Lemma method_fails_nolparen : forall F0 toks v n c t X, parses F0 toks v -> wf_head_toks toks -> is_ident n = true ->
+  solid c = true -> ceq "("%char c = false ->
+  forall f p, F0 <= f -> interp g (20 + f) (GRef "Method") {| pk := p; rest := render toks (sp n (sp (c :: t) X)) |} = Fail.
+Proof.
+  intros F0 toks v n c t X Hp [h [rest' [Eh [Hwh [Hkp Hkt]]]]] Hn Hc Hl f p Hf. cbn [Nat.add]. rule "Method"%string.
+  rewrite i_and, seq_cons, i_and, seq_cons, i_and, seq_cons, i_and, seq_cons, i_and, seq_cons, i_and, seq_cons, i_and, seq_cons.
+  set (NAME := sp n (sp (c :: t) X)).
+  assert (Fn : follow NAME) by (apply follow_ident; exact Hn).
+  rewrite Eh. change (render (h :: rest') NAME) with (sp h (render rest' NAME)).
+  assert (B : boundary (render rest' NAME)) by (apply render_boundary, follow_boundary; exact Fn).
+  pose proof (template_opt_none (5 + f) p h _ Hwh B Hkt) as T. unfold TEMPLATE_OPT in T. cbn [Nat.add] in T. rewrite T. clear T.
+  cbn [app]. rewrite seq_cons, i_name. change (sp h (render rest' NAME)) with (render (h :: rest') NAME). rewrite <- Eh.
+  assert (HH : head_word toks) by (exists h, rest'; split; [exact Eh | split; [exact Hwh | exact Hkp]]).
+  destruct (rt_single_ok F0 toks v Hp HH f p NAME Fn Hf) as [p1 E1]. cbn [Nat.add] in E1. rewrite E1.
+  cbn [map add_name fst snd app]. rewrite seq_nil. cbn [app]. rewrite seq_cons, i_name.
+  assert (Bl : boundary (sp (c :: t) X)) by (right; eexists; reflexivity).
+  unfold NAME. destruct (IDENT_ok (Sn 10 f) p1 n (sp (c :: t) X) Hn Bl) as [p2 E2]. cbn [Sn] in E2. unfold IDENT in E2. rewrite E2.
+  cbn [map add_name fst snd]. rewrite seq_nil. cbn [app]. rewrite seq_cons, i_sup.
+  rewrite (lit1_other _ p2 "("%char c t X Hc Hl). reflexivity.
+Qed.
+(* an operator needs the literal `operator` after its return type *)
+Lemma oper_fails_lit : forall F0 toks v NEXT, parses F0 toks v -> head_word toks -> follow NEXT ->
+  (forall q, run_term (TLit "operator") {| pk := q; rest := NEXT |} = Fail) ->
+  forall f p, F0 <= f -> interp g (20 + f) (GRef "Operator") {| pk := p; rest := render toks NEXT |} = Fail.
+Proof.
+  intros F0 toks v NEXT Hp HH Fn Hlit f p Hf. cbn [Nat.add]. rule "Operator"%string.
+  rewrite i_and, seq_cons, i_and, seq_cons, i_and, seq_cons, i_and, seq_cons, i_and, seq_cons, i_and, seq_cons, i_and, seq_cons, i_name.
+  destruct (rt_single_ok F0 toks v Hp HH f p NEXT Fn Hf) as [p1 E1]. cbn [Nat.add] in E1. rewrite E1.
+  cbn [map add_name fst snd app]. rewrite seq_cons, i_name, i_term. rewrite (Hlit p1). reflexivity.
+Qed.
+
+Lemma variable_fails_noname : forall F0 toks v c t X, parses F0 toks v ->
+  solid c = true -> in_str alpha_ c = false -> cmem c (chars_of digits) = false -> cmem c (chars_of "*@&:<") = false ->
+  forall f p, F0 <= f -> interp g (8 + f) (GRef "Variable") {| pk := p; rest := render toks (sp (c :: t) X) |} = Fail.
+Proof.
+  intros F0 toks v c t X Hp Hc Ha Hd Hm f p Hf. cbn [Nat.add]. rule "Variable"%string.
+  rewrite i_and, seq_cons, i_and, seq_cons, i_and, seq_cons, i_name.
+  assert (Fn : follow (sp (c :: t) X)) by (right; exists c, (t ++ X); split; [reflexivity|]; split; assumption).
+  destruct (Hp (3 + f) p (sp (c :: t) X) Fn ltac:(lia)) as [p1 E1]. cbn [Nat.add] in E1. unfold TY in E1.
+  rewrite E1. cbn [map add_name fst snd app]. rewrite ?seq_cons, i_name.
+  pose proof (IDENT_fail (1 + f) p1 c t X Hc Ha Hd) as E2. cbn [Nat.add] in E2. unfold IDENT in E2. rewrite E2. reflexivity.
+Qed.
+
+(* the members of the fragment *)
+Inductive mem : Type :=
+| MC (args : list (ty * string))
+| MM (t : ty) (name : string) (args : list (ty * string)) (cst : bool)
+| MP (t : ty) (name : string).
+
+Definition mem_toks (cn : chars) (m : mem) : list chars :=
+  match m with
+  | MC args => ctor_toks cn args
+  | MM t n args cst => method_toks t (chars_of n) args cst
+  | MP t n => var_toks t n
+  end.
+Definition mem_member (cn : string) (m : mem) : member :=
+  match m with
+  | MC args => ctor_member cn args
+  | MM t n args cst => method_member t n args cst
+  | MP t n => MVar {| v_ty := t; v_name := n; v_default := None |}
+  end.
+Definition name_ok (h : chars) : Prop :=
+  no_us h /\ h <> ktemplate /\ h <> kstatic /\ h <> kenum /\ h <> kpair.
+Definition head_mem (t : ty) : Prop := exists h rest', ty_toks t = h :: rest' /\ word h /\ name_ok h.
+Definition not_operator (n : chars) : Prop := prefix koperator n = None.
+Definition wf_mem (m : mem) : Prop :=
+  match m with
+  | MC args => Forall wf_arg args
+  | MM t n args _ => wf_ty t /\ depth t < depth_fuel /\ head_mem t /\ is_ident (chars_of n) = true /\ not_operator (chars_of n) /\ Forall wf_arg args
+  | MP t n => wf_ty t /\ depth t < depth_fuel /\ head_mem t /\ is_ident (chars_of n) = true /\ not_operator (chars_of n)
+  end.
+Definition mem_fuel (m : mem) : nat :=
+  match m with
+  | MC args => args_fuel args
+  | MM t _ args _ => fuel_of t + args_fuel args
+  | MP t _ => fuel_of t
+  end.
+
+Lemma lit_operator_lparen : forall q X, run_term (TLit "operator") {| pk := q; rest := sp lparen X |} = Fail.
+Proof. intros q X. apply (lit_fail q (chars_of "operator") "("%char [] X); reflexivity. Qed.
+Lemma lit_operator_name : forall q n r, is_ident n = true -> boundary r -> not_operator n ->
+  run_term (TLit "operator") {| pk := q; rest := sp n r |} = Fail.
+Proof. intros q n r Hn Hr Ho. apply (lit_noprefix q "operator" n r (ident_word n Hn) Hr); [noblank | exact Ho]. Qed.
+
+Lemma b_member_var : forall v n t, b_type v = Ok t ->
+  b_member (var_value v n) = Ok (MVar {| v_ty := t; v_name := string_of n; v_default := None |}).
+Proof.
+  intros v n t H. unfold var_value. cbn [b_member].
+  repeat match goal with |- context [String.eqb ?a ?b] =>
+    let x := eval vm_compute in (String.eqb a b) in change (String.eqb a b) with x end.
+  cbv iota. unfold b_var, name_of, b_default.
+  change (first_named "ctype" [(["ctype"%string], v); (["name"%string], VStr (string_of n))]) with (Some v).
+  change (first_named "name" [(["ctype"%string], v); (["name"%string], VStr (string_of n))]) with (Some (VStr (string_of n))).
+  change (named "default" [(["ctype"%string], v); (["name"%string], VStr (string_of n))]) with (@nil value).
+  cbv iota. rewrite H. reflexivity.
+Qed.
+
+Lemma mem_step : forall cn m, is_ident cn = true -> name_ok cn -> ~ In cn reserved -> wf_mem m ->
+  forall p R f, mem_fuel m + 40 <= f ->
+  exists v p', interp g f MOR6 {| pk := p; rest := render (mem_toks cn m) R |} = Match [([], v)] {| pk := p'; rest := R |}
+               /\ b_member v = Ok (mem_member (string_of cn) m).
+Proof.
+  intros cn m Hcn [Hus [Hct [Hcs [Hce Hcp]]]] Hcr Hwm p R f Hf.
+  assert (X : exists y, f = Sn 6 (20 + y) /\ mem_fuel m + 14 <= y) by (exists (f - 26); cbn [Sn]; lia).
+  destruct X as [y [Ef Hy]]. subst f. cbn [Sn].
+  destruct m as [args | t n args cst | t n]; cbn [mem_toks mem_member wf_mem mem_fuel] in *.
+  - (* constructor *)
+    destruct (ctor_ok cn args Hcn Hct Hwm p R (6 + y) ltac:(lia)) as [v [p' [E Bm]]].
+    exists v, p'. split; [|exact Bm].
+    set (X := render (args_toks args ++ [rparen; semi]) R).
+    assert (ET : render (ctor_toks cn args) R = sp cn (sp lparen X)) by (unfold ctor_toks, X; rewrite !render_app; reflexivity).
+    rewrite ET in *. clear ET.
+    assert (Wn : word cn) by (apply ident_word; exact Hcn).
+    assert (Bl : boundary (sp lparen X)) by (right; eexists; reflexivity).
+    pose proof (name_parses cn Hcn Hcr) as NP.
+    assert (WH : wf_head_toks [cn]) by (exists cn, []; split; [reflexivity|]; split; [exact Wn|]; split; assumption).
+    assert (HW : head_word [cn]) by (exists cn, []; split; [reflexivity|]; split; assumption).
+    unfold MOR6. apply or2_l; [|apply (enum_fails2 p cn _ (15 + y) Wn Bl Hce)].
+    unfold MOR5. apply or2_l.
+    2:{ change (render [cn] (sp lparen X)) with (sp cn (sp lparen X)) || idtac.
+        apply (oper_fails_lit 13 [cn] _ (sp lparen X) NP HW).
+        - right. exists "("%char, X. split; [reflexivity|]. split; reflexivity.
+        - intros q. apply lit_operator_lparen.
+        - lia. }
+    unfold MOR4. apply or2_l.
+    2:{ apply (variable_fails_noname 13 [cn] _ "("%char [] X NP eq_refl eq_refl eq_refl eq_refl (15 + y) p). lia. }
+    unfold MOR3. apply or2_l; [|apply (static_fails_w p cn _ Wn Bl (5 + y) Hct Hcs)].
+    unfold MOR2. apply or2_l.
+    2:{ apply (method_fails_noname 13 [cn] _ "("%char [] X NP WH eq_refl eq_refl eq_refl eq_refl (1 + y) p). lia. }
+    unfold MOR1. rewrite or2_r; [exact E|]. apply (dunder_fails_w p cn _ Wn (11 + y) Hus).
+  - (* method *)
+    destruct Hwm as [Hw [Hd [[h [rest' [Eh [Hwh [Hhu [Hht [Hhs [Hhe Hhp]]]]]]]] [Hn [Hno Ha]]]]].
+    assert (WHt : wf_head t) by (exists h, rest'; split; [exact Eh|]; split; [exact Hwh|]; split; assumption).
+    destruct (method_ok t (chars_of n) args cst Hw Hd WHt Hn Ha p R (1 + y) ltac:(lia) ltac:(lia)) as [v [p' [E Bm]]].
+    exists v, p'. split; [|rewrite string_chars in Bm; exact Bm].
+    set (TLX := [lparen] ++ args_toks args ++ [rparen] ++ const_toks cst ++ [semi]).
+    assert (ET : render (method_toks t (chars_of n) args cst) R = render (ty_toks t) (sp (chars_of n) (sp lparen (render (args_toks args ++ [rparen] ++ const_toks cst ++ [semi]) R)))).
+    { unfold method_toks. rewrite !render_app. reflexivity. }
+    rewrite ET in *. clear ET. set (X := render (args_toks args ++ [rparen] ++ const_toks cst ++ [semi]) R) in *.
+    assert (HP : parses (fuel_of t) (ty_toks t) (ty_value t)) by (apply (ty_parses (S (depth t))); [apply Nat.lt_succ_diag_r | exact Hw]).
+    assert (WH : wf_head_toks (ty_toks t)) by (exists h, rest'; split; [exact Eh|]; split; [exact Hwh|]; split; assumption).
+    assert (HW : head_word (ty_toks t)) by (exists h, rest'; split; [exact Eh|]; split; assumption).
+    set (NAME := sp (chars_of n) (sp lparen X)) in *.
+    assert (EH2 : render (ty_toks t) NAME = sp h (render rest' NAME)) by (rewrite Eh; reflexivity).
+    assert (Bd : boundary (render rest' NAME)) by (apply render_boundary; right; eexists; reflexivity).
+    unfold MOR6. apply or2_l; [|rewrite EH2; apply (enum_fails2 p h _ (15 + y) Hwh Bd Hhe)].
+    unfold MOR5. apply or2_l.
+    2:{ apply (oper_fails_lit (fuel_of t) (ty_toks t) _ NAME HP HW (follow_ident _ _ Hn)).
+        - intros q. apply lit_operator_name; [exact Hn | right; eexists; reflexivity | exact Hno].
+        - lia. }
+    unfold MOR4. apply or2_l.
+    2:{ apply (variable_fails (fuel_of t) (ty_toks t) _ (chars_of n) "("%char [] X HP Hn eq_refl eq_refl eq_refl (15 + y) p). lia. }
+    unfold MOR3. apply or2_l; [|rewrite EH2; apply (static_fails_w p h _ Hwh Bd (5 + y) Hht Hhs)].
+    unfold MOR2. rewrite or2_r; [exact E|].
+    unfold MOR1. rewrite or2_r.
+    + destruct (ty_second t (chars_of n) (lparen :: args_toks args ++ [rparen] ++ const_toks cst ++ [semi]) Hw Hn) as [h2 [c2 [t2 [r2 [E2 [Hh2 [Cs2 Cl2]]]]]]].
+      assert (ER : render (ty_toks t) NAME = sp h2 (sp (c2 :: t2) (render r2 R))).
+      { unfold NAME, X. change (sp (chars_of n) (sp lparen (render (args_toks args ++ [rparen] ++ const_toks cst ++ [semi]) R)))
+          with (render (chars_of n :: lparen :: args_toks args ++ [rparen] ++ const_toks cst ++ [semi]) R).
+        rewrite <- render_app, E2. reflexivity. }
+      rewrite ER. assert (Eh2 : h2 = h) by (rewrite Eh in E2; cbn [app] in E2; inversion E2; reflexivity). subst h2.
+      apply (ctor_fails_second p h c2 t2 _ (6 + y) Hh2 Hht Cs2 Cl2).
+    + rewrite EH2. apply (dunder_fails_w p h _ Hwh (11 + y) Hhu).
+  - (* property *)
+    destruct Hwm as [Hw [Hd [[h [rest' [Eh [Hwh [Hhu [Hht [Hhs [Hhe Hhp]]]]]]]] [Hn Hno]]]].
+    assert (HP : parses (fuel_of t) (ty_toks t) (ty_value t)) by (apply (ty_parses (S (depth t))); [apply Nat.lt_succ_diag_r | exact Hw]).
+    unfold var_toks. rewrite render_app. change (render [chars_of n; semi] R) with (sp (chars_of n) (sp semi R)).
+    destruct (variable_ok (fuel_of t) (ty_toks t) (ty_value t) (chars_of n) HP Hn (15 + y) p R ltac:(lia)) as [p' E].
+    exists (var_value (ty_value t) (chars_of n)), p'. split.
+    2:{ rewrite <- (string_chars n) at 2. apply b_member_var. unfold b_type. apply (ty_rebuilt depth_fuel t Hd Hw). }
+    assert (WH : wf_head_toks (ty_toks t)) by (exists h, rest'; split; [exact Eh|]; split; [exact Hwh|]; split; assumption).
+    assert (HW : head_word (ty_toks t)) by (exists h, rest'; split; [exact Eh|]; split; assumption).
+    set (NAME := sp (chars_of n) (sp semi R)) in *.
+    assert (EH2 : render (ty_toks t) NAME = sp h (render rest' NAME)) by (rewrite Eh; reflexivity).
+    assert (Bd : boundary (render rest' NAME)) by (apply render_boundary; right; eexists; reflexivity).
+    unfold MOR6. apply or2_l; [|rewrite EH2; apply (enum_fails2 p h _ (15 + y) Hwh Bd Hhe)].
+    unfold MOR5. apply or2_l.
+    2:{ apply (oper_fails_lit (fuel_of t) (ty_toks t) _ NAME HP HW (follow_ident _ _ Hn)).
+        - intros q. apply lit_operator_name; [exact Hn | right; eexists; reflexivity | exact Hno].
+        - lia. }
+    unfold MOR4. rewrite or2_r; [exact E|].
+    unfold MOR3. rewrite or2_r; [rewrite EH2; apply (static_fails_w p h _ Hwh Bd (5 + y) Hht Hhs)|].
+    unfold MOR2. rewrite or2_r.
+    { apply (method_fails_nolparen (fuel_of t) (ty_toks t) _ (chars_of n) ";"%char [] R HP WH Hn eq_refl eq_refl (1 + y) p). lia. }
+    unfold MOR1. rewrite or2_r.
+    + destruct (ty_second t (chars_of n) [semi] Hw Hn) as [h2 [c2 [t2 [r2 [E2 [Hh2 [Cs2 Cl2]]]]]]].
+      assert (ER : render (ty_toks t) NAME = sp h2 (sp (c2 :: t2) (render r2 R))).
+      { unfold NAME. change (sp (chars_of n) (sp semi R)) with (render [chars_of n; semi] R). rewrite <- render_app, E2. reflexivity. }
+      rewrite ER. assert (Eh2 : h2 = h) by (rewrite Eh in E2; cbn [app] in E2; inversion E2; reflexivity). subst h2.
+      apply (ctor_fails_second p h c2 t2 _ (6 + y) Hh2 Hht Cs2 Cl2).
+    + rewrite EH2. apply (dunder_fails_w p h _ Hwh (11 + y) Hhu).
+Qed.
+
+(* ---- the members of a class, one after the other, up to the closing brace ---- *)
+Lemma members_star : forall cn, is_ident cn = true -> name_ok cn -> ~ In cn reserved ->
+  forall ms, Forall wf_mem ms -> forall F, 40 <= F -> (forall m, In m ms -> mem_fuel m + 40 <= F) ->
+  forall X k acc p, length ms < k ->
+  exists vs p', star (interp g F) k MOR6 acc {| pk := p; rest := render (flat_map (mem_toks cn) ms) (sp rbrace X) |}
+                = Match (acc ++ items_of vs) {| pk := p'; rest := sp rbrace X |}
+                /\ mapM b_member vs = Ok (map (mem_member (string_of cn)) ms).
+Proof.
+  intros cn Hcn Hok Hres ms. induction ms as [|m ms IH]; intros Hwf F HF Hfuel X k acc p Hk.
+  - destruct k as [|k]; [cbn in Hk; lia|]. exists [], p. cbn [flat_map render fold_right items_of map mapM].
+    assert (EM : interp g F MOR6 {| pk := p; rest := sp rbrace X |} = Fail) by (replace F with (40 + (F - 40)) by lia; apply members_stop).
+    rewrite star_S, EM, app_nil_r. split; reflexivity.
+  - destruct k as [|k]; [cbn in Hk; lia|]. inversion Hwf as [|? ? Hm Hrest]; subst.
+    cbn [flat_map]. rewrite render_app. set (REST := render (flat_map (mem_toks cn) ms) (sp rbrace X)) in *.
+    destruct (mem_step cn m Hcn Hok Hres Hm p REST F (Hfuel m (or_introl eq_refl))) as [v [p1 [E B]]].
+    rewrite star_S, E.
+    destruct (IH Hrest F HF (fun y Hy => Hfuel y (or_intror Hy)) X k (acc ++ [([], v)]) p1 ltac:(cbn [length] in Hk; lia)) as [vs [p2 [E2 B2]]].
+    exists (v :: vs), p2. fold REST in E2. rewrite E2. split.
+    + rewrite <- app_assoc. reflexivity.
+    + cbn [mapM map]. rewrite B. cbn [bind]. rewrite B2. reflexivity.
+Qed.
+
+Definition mems_fuel (ms : list mem) : nat := fold_right (fun m acc => mem_fuel m + acc) 0 ms.
+Lemma mems_fuel_ge : forall ms m, In m ms -> mem_fuel m <= mems_fuel ms.
+Proof. induction ms as [|x ms IH]; intros m H; [destruct H|]. cbn [mems_fuel fold_right]. fold (mems_fuel ms). destruct H as [E|H]; [subst; lia | specialize (IH m H); lia]. Qed.
+
+Lemma ctor_names : forall name ms,
+  forallb (fun c => String.eqb (k_name c) name) (flat_map (fun m => match m with MCtor c => [c] | _ => [] end) (map (mem_member name) ms)) = true.
+Proof.
+  intros name ms. induction ms as [|m ms IH]; [reflexivity|]. cbn [map flat_map]. rewrite forallb_app, IH, andb_true_r.
+  destruct m as [args | t n args cst | t n]; cbn [mem_member]; unfold ctor_member, method_member; cbn [forallb k_name]; [|reflexivity|reflexivity].
+  rewrite String.eqb_refl. reflexivity.
+Qed.
+
+Definition wf_class (name : string) (ms : list mem) : Prop :=
+  is_ident (chars_of name) = true /\ name_ok (chars_of name) /\ ~ In (chars_of name) reserved /\ Forall wf_mem ms.
+Definition class_decl (virt : bool) (name : string) (ms : list mem) : decl :=
+  DClass (class_of_members virt name (map (mem_member name) ms)).
+Definition class_item_toks (virt : bool) (name : string) (ms : list mem) : list chars :=
+  class_toks virt (chars_of name) (flat_map (mem_toks (chars_of name)) ms).
+
+Lemma content_step_cls : forall virt name ms, wf_class name ms ->
+  forall p R f, 54 + length ms + mems_fuel ms <= f ->
+  exists v p', interp g f OR7 {| pk := p; rest := render (class_item_toks virt name ms) R |} = Match [([], v)] {| pk := p'; rest := R |}
+               /\ forall k, b_decl (S k) v = Ok (class_decl virt name ms).
+Proof.
+  intros virt name ms [Hn [Hok [Hres Hwf]]] p R f Hf. set (F := 41 + length ms + mems_fuel ms).
+  apply (content_step_class virt name (flat_map (mem_toks (chars_of name)) ms) (map (mem_member name) ms) F Hn ltac:(unfold F; lia)).
+  - intros R0 q.
+    destruct (members_star (chars_of name) Hn Hok Hres ms Hwf F ltac:(unfold F; lia)
+                (fun m Hm => ltac:(pose proof (mems_fuel_ge ms m Hm); unfold F; lia)) (sp semi R0) F [] q ltac:(unfold F; lia)) as [vs [q' [E B]]].
+    exists vs, q'. split; [exact E|]. rewrite string_chars in B. exact B.
+  - apply ctor_names.
+  - unfold F. lia.
+Qed.
+
+
 Definition stops (R : chars) : Prop := forall p f, 30 <= f -> interp g f OR7 {| pk := p; rest := R |} = Fail.
 
 Lemma end_fails : forall p f, 30 <= f -> interp g f OR7 {| pk := p; rest := [] |} = Fail.
@@ -1183,7 +1898,6 @@ Lemma rbrace_stops : forall X, stops (sp rbrace X).
 Proof. intros X p f Hf. replace f with (30 + (f - 30)) by lia. apply rbrace_fails. Qed.
 
 (* ---- one namespace: `namespace name { content }` where the content is a run of declarations ---- *)
-Definition items_of (vs : list value) : list item := map (fun v => ([], v)) vs.
 Definition ns_value (nm : string) (vs : list value) : value :=
   VNode "Namespace" ([([], VStr "namespace"); (["name"%string], VStr nm)] ++ map (add_name "content") (items_of vs)).
 Definition ns_type : ty := TPlain (Typename [] (NStr "namespace") []) false PNone false.
@@ -1257,6 +1971,7 @@ Inductive item : Type :=
 | IEnum (name : string) (enumerators : list string)
 | ITypedef (t : ty) (name : string)
 | IFnP (t1 t2 : ty) (name : string) (args : list (ty * string))
+| IClass (virt : bool) (name : string) (ms : list mem)
 | INs (name : string) (body : list item).
 
 Fixpoint itoks (i : item) : list chars :=
@@ -1268,6 +1983,7 @@ Fixpoint itoks (i : item) : list chars :=
   | IEnum n l => enum_toks n l
   | ITypedef t n => typedef_toks t n
   | IFnP a b n l => pfn_toks a b n l
+  | IClass v n ms => class_item_toks v n ms
   | INs n b => [knamespace; chars_of n; lbrace] ++ flat_map itoks b ++ [rbrace]
   end.
 Definition items_toks (l : list item) : list chars := flat_map itoks l.
@@ -1280,10 +1996,11 @@ Fixpoint idecl (i : item) : decl :=
   | IEnum n l => enum_decl n l
   | ITypedef t n => DTypedef (ty_typename t) n
   | IFnP a b n l => pfn_decl a b n l
+  | IClass v n ms => class_decl v n ms
   | INs n b => DNamespace n (map idecl b)
   end.
 Fixpoint idepth (i : item) : nat :=
-  match i with IFn _ => 0 | IVar _ _ => 0 | IFwd _ _ => 0 | IInc _ => 0 | IEnum _ _ => 0 | ITypedef _ _ => 0 | IFnP _ _ _ _ => 0 | INs _ b => S (fold_right (fun x acc => Nat.max (idepth x) acc) 0 b) end.
+  match i with IFn _ => 0 | IVar _ _ => 0 | IFwd _ _ => 0 | IInc _ => 0 | IEnum _ _ => 0 | ITypedef _ _ => 0 | IFnP _ _ _ _ => 0 | IClass _ _ _ => 0 | INs _ b => S (fold_right (fun x acc => Nat.max (idepth x) acc) 0 b) end.
 Fixpoint wf_item (i : item) : Prop :=
   match i with
   | IFn x => wf_fn x
@@ -1293,6 +2010,7 @@ Fixpoint wf_item (i : item) : Prop :=
   | IEnum n l => wf_enum n l
   | ITypedef t n => wf_typedef t n
   | IFnP a b n l => wf_pfn a b n l
+  | IClass _ n ms => wf_class n ms
   | INs n b => is_ident (chars_of n) = true /\ (fix all (l : list item) : Prop := match l with [] => True | x :: r => wf_item x /\ all r end) b
   end.
 Fixpoint need (i : item) : nat :=
@@ -1304,6 +2022,7 @@ Fixpoint need (i : item) : nat :=
   | IEnum _ l => 40 + length l
   | ITypedef t _ => 40 + fuel_of t
   | IFnP a b _ l => pfn_fuel a b l + 25
+  | IClass _ _ ms => 54 + length ms + mems_fuel ms
   | INs _ b => 37 + length b + fold_right (fun x acc => need x + acc) 0 b
   end.
 Definition needs (l : list item) : nat := 31 + length l + fold_right (fun x acc => need x + acc) 0 l.
@@ -1351,7 +2070,7 @@ Proof.
       set (REST := render (items_toks items) R) in *.
       assert (Step : exists v p1, interp g F OR7 {| pk := p; rest := render (itoks i) REST |} = Match [([], v)] {| pk := p1; rest := REST |}
                                   /\ forall bf, S n <= bf -> b_decl bf v = Ok (idecl i)).
-      { destruct i as [x|t nm|vt nm|hd|en el|tt tnm|pa pb pn pl|nm b].
+      { destruct i as [x|t nm|vt nm|hd|en el|tt tnm|pa pb pn pl|cv cn cms|nm b].
         - cbn [wf_item itoks idecl need] in *. destruct (content_step x Hwi p REST F ltac:(lia)) as [v [p1 [E B]]].
           exists v, p1. split; [exact E|]. intros bf Hbf. destruct bf as [|bf]; [lia|]. apply B.
         - cbn [wf_item itoks idecl need] in *. destruct (content_step_var t nm Hwi p REST F ltac:(lia)) as [v [p1 [E B]]].
@@ -1365,6 +2084,8 @@ Proof.
         - cbn [wf_item itoks idecl need] in *. destruct (content_step_typedef tt tnm Hwi p REST F ltac:(lia)) as [v [p1 [E B]]].
           exists v, p1. split; [exact E|]. intros bf Hbf. destruct bf as [|bf]; [lia|]. apply B.
         - cbn [wf_item itoks idecl need] in *. destruct (content_step_pfn pa pb pn pl Hwi p REST F ltac:(lia)) as [v [p1 [E B]]].
+          exists v, p1. split; [exact E|]. intros bf Hbf. destruct bf as [|bf]; [lia|]. apply B.
+        - cbn [wf_item itoks idecl need] in *. destruct (content_step_cls cv cn cms Hwi p REST F ltac:(lia)) as [v [p1 [E B]]].
           exists v, p1. split; [exact E|]. intros bf Hbf. destruct bf as [|bf]; [lia|]. apply B.
         - cbn [wf_item itoks idecl need idepth] in *. destruct Hwi as [Hnm Hall].
           assert (Hb : forall j, In j b -> idepth j < n /\ wf_item j).
@@ -1513,6 +2234,31 @@ Proof.
 Qed.
 
 
+Lemma mem_facts : forall cn m, is_ident cn = true -> wf_mem m ->
+  Forall tok_ok (mem_toks cn m) /\ mem_fuel m + 1 <= 32 * length (mem_toks cn m).
+Proof.
+  intros cn m Hcn Hw. destruct m as [args | t n args cst | t n]; cbn [mem_toks mem_fuel wf_mem] in *.
+  - destruct (args_facts args Hw) as [A1 A2]. unfold ctor_toks. split.
+    + cbn [app]. constructor; [apply ident_tok; exact Hcn|]. constructor; [tok_lit|]. apply Forall_app. split; [exact A1 | tok_lit].
+    + cbn [app length]. rewrite app_length. cbn [length]. lia.
+  - destruct Hw as [Hw [Hd [_ [Hn [_ Ha]]]]]. destruct (ty_facts _ _ Hd Hw) as [T1 T2]. destruct (args_facts args Ha) as [A1 A2].
+    unfold method_toks. split.
+    + apply Forall_app. split; [exact T1|]. cbn [app]. constructor; [apply ident_tok; exact Hn|]. constructor; [tok_lit|].
+      apply Forall_app. split; [exact A1|]. constructor; [tok_lit|]. apply Forall_app. split; [apply const_tok | tok_lit].
+    + rewrite !app_length. cbn [length]. lia.
+  - destruct Hw as [Hw [Hd [_ [Hn _]]]]. destruct (ty_facts _ _ Hd Hw) as [T1 T2]. unfold var_toks. split.
+    + apply Forall_app. split; [exact T1|]. constructor; [apply ident_tok; exact Hn | tok_lit].
+    + rewrite app_length. cbn [length]. lia.
+Qed.
+Lemma mems_facts : forall cn ms, is_ident cn = true -> Forall wf_mem ms ->
+  Forall tok_ok (flat_map (mem_toks cn) ms) /\ length ms + mems_fuel ms <= 32 * length (flat_map (mem_toks cn) ms).
+Proof.
+  intros cn ms Hcn H. induction H as [|m ms Hm Hrest [I1 I2]]; [split; [constructor | cbn; lia]|].
+  destruct (mem_facts cn m Hcn Hm) as [M1 M2]. cbn [flat_map mems_fuel fold_right length]. fold (mems_fuel ms).
+  split; [apply Forall_app; split; assumption|]. rewrite app_length. lia.
+Qed.
+
+
 Lemma flat_tok : forall (b : list item), (forall j, In j b -> Forall tok_ok (itoks j)) -> Forall tok_ok (flat_map itoks b).
 Proof.
   induction b as [|j b IH]; intros H; [constructor|]. cbn [flat_map]. apply Forall_app. split; [apply H; left; reflexivity|].
@@ -1527,7 +2273,7 @@ Qed.
 
 Lemma item_facts : forall n i, idepth i < n -> wf_item i -> Forall tok_ok (itoks i) /\ need i + 1 <= 32 * length (itoks i).
 Proof.
-  induction n as [|n IH]; intros i Hd Hw; [lia|]. destruct i as [x|t nm|vt nm|hd|en el|tt tnm|pa pb pn pl|nm b].
+  induction n as [|n IH]; intros i Hd Hw; [lia|]. destruct i as [x|t nm|vt nm|hd|en el|tt tnm|pa pb pn pl|cv cn cms|nm b].
   - cbn [wf_item itoks need] in *. destruct (fn_facts x Hw) as [F1 [F2 F3]]. split; [exact F1 | lia].
   - cbn [wf_item itoks need] in *. destruct Hw as [Hw [Hdt [_ Hn]]]. destruct (ty_facts _ _ Hdt Hw) as [T1 T2]. unfold var_toks. split.
     + apply Forall_app. split; [exact T1|]. constructor; [apply ident_tok; exact Hn | tok_lit].
@@ -1557,6 +2303,11 @@ Proof.
     destruct (args_facts pl Ha) as [A1 A2]. unfold pfn_toks, pfn_fuel. split.
     + apply Forall_app. split; [exact T1|]. apply Forall_app. split; [repeat constructor; apply ident_tok; exact Hn|].
       apply Forall_app. split; [tok_lit|]. apply Forall_app. split; [exact A1|]. apply Forall_app. split; tok_lit.
+    + rewrite !app_length. cbn [length]. lia.
+  - cbn [wf_item itoks need] in *. destruct Hw as [Hn [_ [_ Hwf]]]. destruct (mems_facts (chars_of cn) cms Hn Hwf) as [M1 M2].
+    unfold class_item_toks, class_toks. split.
+    + apply Forall_app. split; [destruct cv; cbn [virt_toks]; tok_lit|]. cbn [app]. constructor; [tok_lit|]. constructor; [apply ident_tok; exact Hn|].
+      constructor; [tok_lit|]. apply Forall_app. split; [exact M1 | tok_lit].
     + rewrite !app_length. cbn [length]. lia.
   - cbn [wf_item itoks need idepth] in *. destruct Hw as [Hnm Hall].
     assert (Hb : forall j, In j b -> Forall tok_ok (itoks j) /\ need j + 1 <= 32 * length (itoks j)).
